@@ -114,6 +114,23 @@ def run_vu(vu, prop, seed=0, open_findings=(), start=None, split_at=None):
                                             start=start, split_at=split_at)
         res["leftover"] = leftover
         res["paths"] = len(paths)
+        # vacuity guard (DESIGN 9.2): the assumptions collected on a path (unit preconditions, environment model, invariant
+        # assumed after a havoc, callee contracts) must be satisfiable - a contradictory assumption proves everything
+        vac = 0
+        for _, outcome, pctx in paths:
+            if outcome == "infeasible" or not pctx.obligations:
+                continue
+            sv = z3.Solver()
+            sv.set("timeout", 400)
+            for e in theory.exprs():
+                sv.add(e)
+            sv.add(*pctx.obligations[-1].pc)
+            if sv.check() == z3.unsat:
+                vac += 1
+        res["vacuous_paths"] = vac
+        live = sum(1 for _, o, c in paths if o != "infeasible" and c.obligations)
+        if live and vac == live and start is None and not leftover:
+            res["error"] = "every explored path has contradictory assumptions (vacuous unit)"
         res["outcomes"] = {}
         for _, outcome, _ctx in paths:
             key = outcome if isinstance(outcome, str) else repr(outcome)
@@ -230,6 +247,7 @@ def _merge(a, b):
     a["seconds"] = round(a["seconds"] + b["seconds"], 3)
     a["feas_queries"] = (a.get("feas_queries") or 0) + (b.get("feas_queries") or 0)
     a["feas_seconds"] = round((a.get("feas_seconds") or 0) + (b.get("feas_seconds") or 0), 3)
+    a["vacuous_paths"] = (a.get("vacuous_paths") or 0) + (b.get("vacuous_paths") or 0)
     a["assumptions"] = sorted(set(a.get("assumptions", [])) | set(b.get("assumptions", [])))
     if b.get("undecided") and not a.get("undecided"):
         a["undecided"] = b["undecided"]
@@ -451,7 +469,8 @@ def run_check(prop, units, tier, seed, level, technique_text, trusted_base, repl
             "function_text_sha": {k: v for r in results for k, v in r.get("function_sha", {}).items()},
             "units": [{"unit": r["unit"], "label": r["label"], "paths": r["paths"], "seconds": r["seconds"],
                        "obligations": len(r["obligations"]), "outcomes": r.get("outcomes"),
-                       "feasibility_queries": r.get("feas_queries"), "undecided": r["undecided"], "error": r["error"]}
+                       "feasibility_queries": r.get("feas_queries"), "vacuous_paths": r.get("vacuous_paths"),
+                       "undecided": r["undecided"], "error": r["error"]}
                       for r in results],
             "obligations_by_label": by_label,
             "solver_seconds": round(solver_s, 3),
